@@ -226,7 +226,7 @@ PROPS = {
     ),
     "C13": dict(
         module="Evl.Props.C13",
-        theorems=["Evl.C13.writer_success", "Evl.C13.writer_error", "Evl.C13.table_lww", "Evl.C13.table_history", "Evl.C13.table_keys_nodup", "Evl.C13.table_commutes", "Evl.C13.table_empty", "Evl.C13.filesink_specials",
+        theorems=["Evl.C13.writer_success", "Evl.C13.writer_error", "Evl.C13.table_lww", "Evl.C13.table_history", "Evl.C13.table_keys_nodup", "Evl.C13.table_commutes", "Evl.C13.table_idempotent", "Evl.C13.table_empty", "Evl.C13.filesink_specials",
                   "Evl.C13.channel_exactly_one", "Evl.C13.write_under_lock", "Evl.C13.channel_single_select", "Evl.C13.filesink_refuses_unformatted"],
         runs=[dict(model="sinks", sub="sinks", driver="sinks", quick=["-n", "4000"], thorough=["-n", "120000"], search=["-n", "40000"]), FS_RUN],
         oracle_prefixes=["C13"], models=["M9 Sinks", "Generated.LockSites(sinkWrites)"],
